@@ -22,6 +22,7 @@
 EXTENDS Integers, Sequences, FiniteSets, TLC, Json
 
 CONSTANTS MaxDev,      \* documents differ from the base document in at most MaxDev features
+          Diag,        \* TRUE: documents with exactly MaxDev deviations are written as json/single-file and yaml/multi-file only
           MaxLen       \* access histories up to this length for the base document, one shorter per deviation
 
 Targets == {"M", "O", "Z"}             \* the operations every lookup route is tried on
@@ -39,8 +40,8 @@ Ops(d) == IF HasW(d) THEN AllOps ELSE Targets
 Routes == {"path", "id", "ref"}
 
 (* ------------------------------- documents ------------------------------ *)
-Bodies == {"none", "one", "two", "ref"}
-Secs == {"none", "hdr", "qry", "basic", "off", "ref", "clash"}   \* "clash": apiKey named like the declared parameter (p, query)
+Bodies == {"none", "one", "two", "ref", "form"}    \* "form": a form payload (3.x: urlencoded media type; 2.0: formData parameters)
+Secs == {"none", "hdr", "qry", "basic", "off", "ref", "refall", "clash"}   \* "refall": the whole securitySchemes map is a $ref;   \* "clash": apiKey named like the declared parameter (p, query)
 Bads == {"none", "paramref", "noin", "itemref", "hdrname", "noschema"}
         \* unresolvable parameter $ref / no "in" / unresolvable path item / header name that is no token / neither schema nor content
 Vers == {"3.0", "3.1", "2.0"}
@@ -77,8 +78,9 @@ Weight(d) == B2N(d.plK1 # Base.plK1) + B2N(d.plK2 # Base.plK2) + B2N(d.olK1 # Ba
 WF(d) == /\ (d.rec => d.body # "none")
          /\ ((~d.olK1 /\ ~d.olK2 /\ ~d.olK3 /\ d.cross = "none") => d.odepth = 0)
          /\ (d.collide => d.pathRef)                  \* two documents are needed for two definitions under one pointer text
-         /\ (d.ver = "2.0" => ~d.qcontent /\ d.bad # "noschema" /\ d.sec # "ref")   \* 2.0 has no "content", no parameter "schema", no $ref there
+         /\ (d.ver = "2.0" => ~d.qcontent /\ d.bad # "noschema" /\ d.sec \notin {"ref", "refall"})   \* 2.0 has no "content", no parameter "schema", no $ref there
          /\ (d.qcontent => d.bad = "none")
+         /\ (d.rec => d.body # "form")
 (* all documents within MaxDev single-feature changes of Base (built by changing one feature at a time) *)
 Variants(d) == {[d EXCEPT !.plK1 = b] : b \in BOOLEAN} \cup {[d EXCEPT !.plK2 = b] : b \in BOOLEAN}
           \cup {[d EXCEPT !.olK1 = b] : b \in BOOLEAN} \cup {[d EXCEPT !.olK2 = b] : b \in BOOLEAN}
@@ -131,6 +133,8 @@ BodiesOf(d, t) == IF t # "M" THEN {}
                        CASE d.body = "none" -> {}
                          [] d.body = "one" -> {Alt("application/json", FALSE, JsonTag(d))}
                          [] d.body = "two" -> {Alt("application/json", TRUE, JsonTag(d)), Alt("text/plain", TRUE, other(7))}
+                         [] d.body = "form" -> {Alt(IF d.ver = "2.0" THEN "multipart/form-data" ELSE "application/x-www-form-urlencoded", TRUE, 6)}
+                                               \* 2.0 without "consumes": formData is sent as multipart/form-data
                          [] OTHER -> {Alt("application/json", TRUE, JsonTag(d)), Alt("text/plain", TRUE, other(7)),
                                       Alt("application/xml", TRUE, other(8))}
                                      \cup (IF d.ver = "2.0" THEN {} ELSE {Alt("multipart/form-data", TRUE, 9)})
@@ -139,7 +143,7 @@ RespKeys(t) == IF t = "M" THEN {"200", "404", "default"} ELSE {"200"}
 PropNames == {"no", "on", "v"}
 DateScalar == "2020-01-01"
 Malformed(d, t) == t = "Z" /\ d.bad # "none"
-HasJsonBody(d, t) == t = "M" /\ d.body # "none"
+HasJsonBody(d, t) == t = "M" /\ d.body \notin {"none", "form"}
 (* the JSON reference of an operation: "#/paths/" + RFC 6901 escape of the path ("~" -> "~0", "/" -> "~1") + "/" + method *)
 Esc(path) == CASE path = "/m/{id}" -> "~1m~1{id}" [] path = "/z" -> "~1z" [] path = "/f/~1" -> "~1f~1~01" [] path = "/f/~0" -> "~1f~1~00"
                [] path = "/f/~01" -> "~1f~1~001" [] path = "/f/~10" -> "~1f~1~010" [] path = "/f//" -> "~1f~1~1" [] OTHER -> "~1f~1~10"
@@ -166,11 +170,14 @@ NoSuchId(d, a) == a.k = "id" /\ a.t = "O" /\ d.oNoId
 VARIABLES doc, ser, lay, hist, ops, byKey, byId, byRef, ret
 vars == <<doc, ser, lay, hist, ops, byKey, byId, byRef, ret>>
 None == [t \in AllOps |-> 0]
-Init == /\ doc \in Docs /\ ser \in {"json", "yaml"} /\ lay \in {"single", "multi"}
+(* "stream": the single document handed over as an open file (no location, content sniffed) instead of a path - the other front door *)
+Init == /\ doc \in Docs /\ ser \in {"json", "yaml"} /\ lay \in {"single", "multi", "stream"}
+        /\ (lay = "stream" => Weight(doc) <= 1)
+        /\ ((Diag /\ Weight(doc) = MaxDev /\ lay # "stream") => ((ser = "json") <=> (lay = "single")))
         /\ hist = <<>> /\ ops = <<>> /\ ret = <<>>
         /\ byKey = None /\ byId = None /\ byRef = None
 Bound == MaxLen - Weight(doc)          \* the base document gets the longest histories, one access less per deviation
-CanStep == Len(hist) < Bound
+CanStep == Len(hist) < Bound - (IF lay = "stream" THEN 1 ELSE 0)
 Access(k, t) == [k |-> k, t |-> t]
 (* what an access hands back: the set of targets it yields an outcome for, as materialised *)
 Iterate == /\ CanStep
@@ -234,15 +241,26 @@ PairKeyed == \A t \in Ops(doc) : \A p \in PathLevel(doc, t) :
    document (with its first one-access history), every other line carries the descriptor, the history and which accesses are judged *)
 First == Len(hist) = 1 /\ hist[1].k = "iter" /\ ser = "json" /\ lay = "single"
 SIdx(x, seq) == CHOOSE n \in 1..Len(seq) : seq[n] = x
-DocId(d) == B2N(d.plK1) + 2 * B2N(d.plK2) + 4 * B2N(d.olK1) + 8 * B2N(d.olK2) + 16 * B2N(d.olK3) + 32 * B2N(d.orient = "oT")
-          + 64 * d.pdepth + 192 * d.odepth + 576 * B2N(d.pathRef) + 1152 * B2N(d.rec)
-          + 2304 * (SIdx(d.body, <<"none", "one", "two", "ref">>) - 1)
-          + 9216 * (SIdx(d.sec, <<"none", "hdr", "qry", "basic", "off", "ref", "clash">>) - 1)
-          + 64512 * (SIdx(d.bad, <<"none", "paramref", "noin", "itemref", "hdrname", "noschema">>) - 1)
-          + 387072 * (SIdx(d.cross, <<"none", "fwd", "mirror">>) - 1)
-          + 1161216 * (SIdx(d.zpath, <<"/z", "/f/~1", "/f/~0", "/f/~01", "/f/~10">>) - 1) + 5806080 * B2N(d.collide)
-          + 11612160 * (SIdx(d.ver, <<"3.0", "3.1", "2.0">>) - 1) + 34836480 * B2N(d.qcontent) + 69672960 * B2N(~d.secgen)
-          + 139345920 * B2N(d.oNoId)
+DocId(d) == 1 * B2N(d.plK1)
+          + 2 * B2N(d.plK2)
+          + 4 * B2N(d.olK1)
+          + 8 * B2N(d.olK2)
+          + 16 * B2N(d.olK3)
+          + 32 * (SIdx(d.orient, <<"pT", "oT">>) - 1)
+          + 64 * d.pdepth
+          + 192 * d.odepth
+          + 576 * B2N(d.pathRef)
+          + 1152 * B2N(d.rec)
+          + 2304 * (SIdx(d.body, <<"none", "one", "two", "ref", "form">>) - 1)
+          + 11520 * (SIdx(d.sec, <<"none", "hdr", "qry", "basic", "off", "ref", "refall", "clash">>) - 1)
+          + 92160 * (SIdx(d.bad, <<"none", "paramref", "noin", "itemref", "hdrname", "noschema">>) - 1)
+          + 552960 * (SIdx(d.cross, <<"none", "fwd", "mirror">>) - 1)
+          + 1658880 * (SIdx(d.zpath, <<"/z", "/f/~1", "/f/~0", "/f/~01", "/f/~10">>) - 1)
+          + 8294400 * B2N(d.collide)
+          + 16588800 * (SIdx(d.ver, <<"3.0", "3.1", "2.0">>) - 1)
+          + 49766400 * B2N(d.qcontent)
+          + 99532800 * B2N(d.secgen)
+          + 199065600 * B2N(d.oNoId)
 Export == IF hist = <<>> THEN TRUE
           ELSE IF First
           THEN PrintT(<<"CASE", ToJson([id |-> DocId(doc), d |-> doc, w |-> Weight(doc), ser |-> ser, lay |-> lay, h |-> hist,
